@@ -187,6 +187,10 @@ func runC14(c *ctx) {
 	r := c.res.Rng
 	c.res.Rule = "FROST / FROST-Taproot / CMP / Doerner material from real keygens; chain keys equal and 32 bytes; derivation paths of length 1..3 over indices {0,1,2^31-1,random}; " +
 		"child key and chain code vs the reference CKDpub; derived sharing checked; signing with derived material; non-trivial = all; distinct by (material, n, t, path)"
+	c.res.Rule += "; derive -> refresh -> derive at the same index on ONE in-memory object per party in one process (retained.go): child key and chain code vs the reference for the CURRENT chain key, signing with the re-derived child and a grandchild"
+	if c.replay != "" && c.retReplayRun("C14") {
+		return
+	}
 	indices := func() uint32 {
 		switch r.Intn(5) {
 		case 0:
@@ -244,6 +248,7 @@ func runC14(c *ctx) {
 				}
 				c.c14Path("cmp", 3, 1, raw, path, signFn)
 			}
+			c.c01RetainedAll("C14", raw, ids)
 		}
 	}
 	// Doerner
